@@ -43,6 +43,9 @@ fn main() {
   if args.len() == 2 && args[1] == "selftest" {
     std::process::exit(selftest::main());
   }
+  if args.len() == 4 && args[1] == "c13-launch" {
+    std::process::exit(c13::launch_main(&args[2], &args[3]));
+  }
   if args.len() < 3 {
     eprintln!("usage: agsim check <ID> [--tier=quick|thorough] [--seed=N] [--workers=N] [--runs=N] [--secs=N] | agsim replay <ID> <file> | agsim worker <ID> ...");
     std::process::exit(2);
